@@ -165,6 +165,13 @@ func c01exec(c *Ctx, st *c01state, op Op, rng *rand.Rand, light bool) Ev {
 			gc = []int{k.C, k.C + 1, k.C - 1}
 			if rng != nil {
 				gc = append(gc, rng.Intn(20))
+				// vary what was looked up last before the next call: nothing, or one key only
+				switch rng.Intn(5) {
+				case 0:
+					gc = []int{}
+				case 1:
+					gc = []int{rng.Intn(20)}
+				}
 			}
 		}
 		gl := make([][5]int, 0, len(gc))
@@ -267,9 +274,14 @@ func replayPathC01(c *Ctx, h *Hist, ops []Op) {
 
 var c01betas = []int{0, 1, 100, 250, 333, 500, 750, 900, 999, 1000}
 
+var c01kindsOverride []string // when set, c01gen produces these kinds only
+
 func c01gen(c *Ctx, label string, nh int, maxKeys int) {
 	kinds := []string{"uniform8", "uniform16", "uniform64", "ascending", "descending", "zigzag", "filldrain",
-		"twochild", "dupheavy", "bulknew", "clonefork", "asc-remove"}
+		"twochild", "dupheavy", "bulknew", "clonefork", "asc-remove", "restart"}
+	if c01kindsOverride != nil {
+		kinds = c01kindsOverride
+	}
 	for i := 0; i < nh; i++ {
 		c.genGuard(func() {
 			rng := c.Rng(label, i)
@@ -298,8 +310,53 @@ func c01gen(c *Ctx, label string, nh int, maxKeys int) {
 					}
 				}
 			}
+			if kind == "restart" {
+				// a tree built big (by New or by Adds), emptied by Clear or by removing every key, and
+				// then grown again in sorted order: whatever the big tree allowed must not carry over
+				keys = nil
+				for j, nk := 0, 60+rng.Intn(160); j < nk; j++ {
+					keys = append(keys, fresh(j))
+				}
+				if rng.Intn(4) != 0 { // factors where a sorted run soon exceeds the bound unless the tree is rebuilt
+					beta = []int{0, 250, 400, 500, 600, 750}[rng.Intn(6)]
+				}
+			}
 			do := func(op Op) { h.Emit(c01exec(c, st, toAnyOp(op), rng, false)) }
-			do(Op{"op": "new", "beta": beta, "rev": rev, "keys": keys, "mag": []int{0, 0, 1, 2, 3, 4}[rng.Intn(6)]})
+			if kind == "restart" && rng.Intn(2) == 0 {
+				do(Op{"op": "new", "beta": beta, "rev": rev, "keys": [][2]int{}, "mag": 0})
+				for _, k := range keys {
+					h.Emit(c01exec(c, st, toAnyOp(Op{"op": "add", "t": 1, "k": k, "full": 0}), rng, true))
+				}
+			} else {
+				do(Op{"op": "new", "beta": beta, "rev": rev, "keys": keys, "mag": []int{0, 0, 1, 2, 3, 4}[rng.Intn(6)]})
+			}
+			if kind == "restart" {
+				for round := 0; round < 2; round++ {
+					if rng.Intn(2) == 0 {
+						do(Op{"op": "clear", "t": 1})
+					} else {
+						for _, k := range keys {
+							h.Emit(c01exec(c, st, toAnyOp(Op{"op": "remove", "t": 1, "k": [2]int{k[0], 0}, "full": 0}), rng, true))
+						}
+					}
+					keys = nil
+					up := rng.Intn(2) == 0
+					for j, nk := 0, 12+rng.Intn(40); j < nk; j++ {
+						cl := j
+						if !up {
+							cl = 500 - j
+						}
+						k := fresh(cl)
+						keys = append(keys, k)
+						if rng.Intn(2) == 0 {
+							do(Op{"op": "add", "t": 1, "k": k})
+						} else {
+							do(Op{"op": "replace", "t": 1, "k": k})
+						}
+					}
+				}
+				return
+			}
 			nops := 30 + rng.Intn(c.Pick(90, 200))
 			ntrees := 1
 			for j := 0; j < nops; j++ {
@@ -435,6 +492,9 @@ func runC01(c *Ctx) {
 		replayPathC01(c, c.NewHist("tlc-path"), p)
 	}
 	c01gen(c, "c01", c.Pick(192, 3000), 0)
+	c01kindsOverride = []string{"restart"}
+	c01gen(c, "c01-restart", c.Pick(16, 200), 0)
+	c01kindsOverride = nil
 	c01sliceKeys(c)
 	c01deepClone(c)
 }
@@ -548,6 +608,9 @@ func runC02(c *Ctx) {
 		replayPathC01(c, c.NewHist("tlc-path"), p)
 	}
 	c01gen(c, "c02", c.Pick(96, 3000), 0)
+	c01kindsOverride = []string{"restart"}
+	c01gen(c, "c02-restart", c.Pick(48, 600), 0)
+	c01kindsOverride = nil
 	// thousands of keys in adversarial order at strict balance factors
 	for i := 0; i < c.Pick(2, 8); i++ {
 		rng := c.Rng("c02-long", i)
